@@ -2,6 +2,8 @@ import NemoVerif.Drive.Common
 import NemoVerif.Models.Conflict
 import NemoVerif.Models.ConflictRound
 import NemoVerif.Generated.C04
+import NemoVerif.Models.MatchBranch
+import NemoVerif.Drive.C04
 
 namespace NemoVerif.Drive.C05
 open Lean NemoVerif NemoVerif.Drive NemoVerif.Conflict
@@ -87,6 +89,28 @@ def handle (op : String) (j : Json) : Except String Json := do
       ("tie_sizes", natsJson (tieSizes one hs)),
       ("tbl", Json.arr (tbl'.map (fun p => natsJson [p.1, p.2])).toArray),
       ("repoints", Json.arr ((repoints none fs).map (fun p => natsJson [p.1, p.2.1, p.2.2])).toArray)])
+  | "bscore" =>
+    -- one (event, reference event) pair: the branch of the score computation it falls into, the unscaled specificity and
+    -- the score under the declared priority (C04's `eventScore`), and the scaling law between the two
+    let ev ← NemoVerif.Drive.C04.evOfJson (← j.getObjVal? "ev")
+    let ref ← NemoVerif.Drive.C04.evOfJson (← j.getObjVal? "ref")
+    let rx ← NemoVerif.Drive.C04.rxOfJson (← j.getObjVal? "rx")
+    let prio ← NemoVerif.Drive.C04.dyOfJson ((j.getObjVal? "prio").toOption.getD .null)
+    let sa : List (String × List (String × Val)) ← match j.getObjVal? "start_args" with
+      | .ok (.arr a) => a.toList.mapM fun e => do
+          let p ← e.getArr?
+          if h : p.size = 2 then do
+            let u ← p[0].getStr?; let kvs ← kvsOfJson p[1]; pure (u, kvs)
+          else throw "bad start_args"
+      | _ => pure []
+    let startArgs := fun u => (sa.find? (·.1 == u)).map (·.2)
+    let scaled := NemoVerif.Match.eventScore rx startArgs ev ref prio
+    let unscaled := NemoVerif.Match.eventScore rx startArgs ev ref none
+    pure (Json.mkObj [
+      ("branch", .str (NemoVerif.MatchBranch.scoreBranch ev ref).name),
+      ("scaled", NemoVerif.Drive.C04.evResToJson scaled),
+      ("unscaled", NemoVerif.Drive.C04.evResToJson unscaled),
+      ("law", Json.bool (scaled == NemoVerif.MatchBranch.scaleBy prio unscaled))])
   | "mcmp" =>
     let a ← mscoreOfJson (← j.getObjVal? "a")
     let b ← mscoreOfJson (← j.getObjVal? "b")
